@@ -9,6 +9,8 @@ mod scanner;
 use bumpalo::{collections, Bump};
 use laythe_lib::global::ERROR_CLASS_NAME;
 pub use parser::Parser;
+#[cfg(feature = "verif")]
+pub(crate) use peephole::verif_peephole_optimize;
 use ref_no_context::RefNoContext;
 pub use resolver::Resolver;
 
